@@ -429,12 +429,13 @@ def keys_script(g):
         q = r.random()
         if q < 0.4:
             it = key(exact=r.random() < 0.85); it["v"] = S(str(len(ops)))
-            ops.append(dict(op="put", item=it, **base))
+            ops.append(dict(op="put", item=it, return_old=r.random() < 0.5, **base))
         elif q < 0.55: ops.append(dict(op="get", key=key(exact=r.random() < 0.8), **base))
         elif q < 0.7: ops.append(dict(op="delete", key=key(exact=r.random() < 0.8), return_old=True, **base))
         elif q < 0.85:
             ops.append(dict(op="update", key=key(exact=r.random() < 0.85), expr="SET v = :v", names={}, values={":v": S("u%d" % len(ops))}, **base))
-        else: ops.append(dict(op="scan", **base))
+        elif q < 0.93: ops.append(dict(op="scan", **base))
+        else: ops.append(dict(op="scan", esk=key(exact=r.random() < 0.5), **base))     # a start key written by hand
     return ops
 
 
